@@ -241,4 +241,23 @@ theorem responseFromDict_root (gs : GlueSwitches) (r : Response) (h : WriterDoma
     strictStr_sv, pure, Except.pure]
   rfl
 
+/-- **F12 seen from the writer's side.**  With the pinned glue (`wrapsSingleResponseBundle = false`) the
+    dict of an emitted SKR with exactly ONE bundle makes `response_from_xml` raise TypeError — whatever
+    the bundle contains.  (Fixed in /repo by 84feffe; the switch is tabulated from the code.) -/
+theorem responseFromDict_root_pinned (gs : GlueSwitches) (hgs : gs.wrapsSingleResponseBundle = false)
+    (r : Response) (b : Bundle) (hb : r.bundles = [b]) :
+    responseFromDict gs (.dict [("KSR".toList, rootVal r)]) = err .type := by
+  have lB : (respDict r).lookup "ResponseBundle".toList = some (bundleVal b) := by
+    simp [respDict, hb, storeAll, storeElement, List.lookup]
+  have e1 : XVal.getItem (.dict [("KSR".toList, rootVal r)]) "KSR" = .ok (rootVal r) := by
+    simp [XVal.getItem, List.lookup, pure, Except.pure]
+  have e2 : XVal.getItem (rootVal r) "value" = .ok (.dict [("Response".toList, .dict (respDict r))]) := by
+    simp [rootVal, XVal.getItem, List.lookup, kAttrs, kValue, pure, Except.pure]
+  have e3 : XVal.getItem (.dict [("Response".toList, .dict (respDict r))]) "Response" = .ok (.dict (respDict r)) := by
+    simp [XVal.getItem, List.lookup, pure, Except.pure]
+  have hbad : responseBundlesOf gs (bundleVal b) = err .type :=
+    C12_glue_response_bundles_counterexample gs hgs _ _
+  unfold responseFromDict
+  simp only [e1, e2, e3, bind, Except.bind, getItem_of_lookup lB, hbad, err]
+
 end Kskm.ReadBack
